@@ -1629,7 +1629,7 @@ impl Prop for C17Prop {
                 "faults are single faults per transfer; the second transfer of a pair may carry its own single fault".into(),
                 "autoSavePath is always given (absolute sandbox directory); the default ./ is not explored".into(),
             ],
-            budget_s: (35, 1100),
+            budget_s: (90, 1100),
             workers: 0,
             required_landmarks: vec![
                 // properties of the enumerated cases
